@@ -214,7 +214,8 @@ def main(argv=None):
 def report(prop, results, ledger, tier, seed, t_start, only_mode=False):
     findings, _ = load_known()
     os.makedirs(os.path.join(VERIF, 'replays'), exist_ok=True)
-    os.makedirs(os.path.join(VERIF, 'evidence'), exist_ok=True)
+    ev_dir = os.environ.get('PYVC_EVIDENCE_DIR') or os.path.join(VERIF, 'evidence')
+    os.makedirs(ev_dir, exist_ok=True)
     lines = []
     violations = 0
     undecided = []
@@ -439,7 +440,7 @@ def report(prop, results, ledger, tier, seed, t_start, only_mode=False):
         if n_ob == 0:
             for k_ in ('obligations', 'discharged'):
                 ev['coverage'].pop(k_, None)
-    json.dump(ev, open(os.path.join(VERIF, 'evidence', f'{prop}.json'), 'w'), indent=1)
+    json.dump(ev, open(os.path.join(ev_dir, f'{prop}.json'), 'w'), indent=1)
     for l in lines:
         print(l)
     print(f'{prop}: {n_dis}/{n_ob} obligations discharged, {violations} violations, '
